@@ -14,4 +14,4 @@ for id in "$@"; do
   VERIF_REPO=$wt ./check $id --tier ${TIER:-quick} 2>&1 | grep -E '^(OK|VIOLATION|KNOWN-FINDING|#)' | head -4
 done
 git -C /repo worktree remove --force $wt
-rm -rf .build/mod
+rm -rf .build/mod/$(printf %s "$wt" | sha1sum | cut -c1-8)
